@@ -326,6 +326,8 @@ where
 {
     fn test_filter(&self, dataset: &ResultItem<'store, AnnotationDataSet>) -> bool {
         match &self.filter {
+            Filter::DataSets(v, FilterMode::Any, _) => v.contains(&dataset.fullhandle()),
+            Filter::BorrowedDataSets(v, FilterMode::Any, _) => v.contains(&dataset.fullhandle()),
             Filter::DataSets(_, FilterMode::All, _) => {
                 unreachable!("not handled by this iterator but by FilterAllIter")
             }
